@@ -42,7 +42,8 @@ def main():
     assert R.axis_weights(c, 3.5, 'linear') == [0, 0, F(3, 4)]      # spacing 2 on the right
     assert R.axis_weights(c, 5.0, 'linear') == [0, 0, 0]
     assert R.axis_weights(c, 5.5, 'linear') is None
-    assert R.axis_weights([0.5], 0.5, 'linear') is None
+    assert R.axis_weights([0.5], 0.5, 'linear') == [1]          # at the only node
+    assert R.axis_weights([0.5], 0.75, 'linear') is None
 
     # --- literals of the odl docstrings (linear_interpolator, nearest_interpolator, 1d)
     cv = [0.2, 0.6, 1.0, 1.4, 1.8]
@@ -98,6 +99,8 @@ def main():
                                               -0.5, 4.0, -0.25, 3.5]
     assert R.axis_points([0.0, 2.0], far=True)[-2:] == [-2.0, 4.0]
     assert R.axis_points([0.5], outside=False) == [0.5]
+    assert R.axis_points([0.0, 2.0], cells=(1.5, 10))[-4:] == [-3.0, 5.0, -20.0, 22.0]
+    assert R.axis_weights(c, 4.5, 'nearest') == [0, 0, 1] and R.axis_weights(c, 13.0, 'linear') is None
     assert R.is_tie([0.1, 0.4, 1.0], 0.25) and not R.is_tie([0.1, 0.4, 1.0], 0.4)
     assert R.nearest_select([c], [[0.5, 0.25, 7.0]]) == [[1, 0, 2]]
     print('test_c15_ref: ok')
